@@ -5,6 +5,16 @@ ROOT = os.path.dirname(os.path.dirname(os.path.abspath(__file__)))
 
 # id -> (engine, category, technique, level text, level note, design_ref)
 CHECKS = {
+ "C05": ("servlab", "exploration",
+   "runtime monitor on regenerated servers: every request decided by an independent reference router (backtracking template matcher); recording handler, FindPath cross-check",
+   "Route sets over a segment alphabet with shared prefixes, mid-segment parameters and static/param siblings (regression list, a stride through all 1- and 2-template sets of depth<=2, PRNG sets of 3-4 templates of depth<=3; 1-3 methods per template) are generated into servers with the generator under test, compiled and driven in-process: template instances with fresh, sibling-static, tail-byte, empty and escaped values, near misses, re-escaped/hand-built URLs, malformed RawPath, all short paths over the set's alphabet, nine methods, with and without WithPathPrefix. Oracle: soundness of dispatch and arguments, static priority, restricted completeness, 404, 405/Allow, FindPath agreement.",
+   "Reference router semantics in DESIGN.md Appendix B; a route set the generator rejects with a conflict diagnostic is tallied, not judged. 400 for an empty path argument counts as routed.",
+   "DESIGN.md §2 C05"),
+ "C16": ("libmon", "exploration",
+   "runtime monitor with RFC 6901 reference evaluator over the same yaml.Node tree, node-identity comparison",
+   "Random and fixed corner documents (adversarial member names, arrays up to 12) in JSON and YAML spellings; every valid pointer to every node in plain and several URI-fragment spellings, all single-byte mutants of those, near-miss indices and random strings are resolved by the real jsonpointer.Resolve and by a reference evaluator written from RFC 6901; a violation is a different node, a node where the RFC designates none, or an error where it designates one, or a panic.",
+   "Pointers that are not RFC 6901 syntax but that ogen reads leniently (a bare '~' taken literally; relative-URL pointers using only the fragment) are tallied, not judged: error or the literal reading is accepted, any other node is a violation.",
+   "DESIGN.md §2 C16"),
  "C12": ("libmon", "exploration",
    "runtime monitor with reference normaliser: bounded-exhaustive + PRNG inputs at the public API, panic guard",
    "Every string up to length 6 (quick) / 8 (thorough) over a 10-symbol alphabet of '%', hex digits of both cases, a non-hex letter, unreserved and reserved bytes is passed to the real uri.NormalizeEscapedPath and decided by a reference normaliser (validity, canonical form, octet preservation, idempotence, no panic); plus PRNG byte strings; plus the parser's duplicate-path-key detection on equivalent and non-equivalent key pairs. Held = no observed execution disagreed with the reference.",
